@@ -531,6 +531,17 @@ def reductionAxisWith (agg : List XR → XR) (axes : Option (List Int)) (keep : 
         mapRows (fun s => reduceAxesWith agg s (some (l.map (negAxis a.shape.length))) keep) a
       else none
 
+/-- Named reduction with an arbitrary aggregate (`Funsor.reduce` for ops.mean / var / std, and any other
+    aggregate): the block of a result entry is the list of the argument's entries over ALL assignments of the
+    requested variables, in row-major order; a requested variable the argument does not mention simply
+    replicates the entries. -/
+def reduceNamedWith (agg : List XR → XR) (vars : List (Name × Nat)) (a : NT) : Option NT :=
+  let keep := a.inputs.filter (fun p => !(vars.map (·.1)).contains p.1)
+  if SubDict a.inputs (vars ++ keep) && vars.all (fun p => decide (0 < p.2)) then
+    some ⟨keep, a.shape, fun idx => agg ((allIdx (vars.map (·.2))).map fun asg =>
+      a.readAt (vars.map (·.1) ++ keep.map (·.1)) (asg ++ idx.take keep.length) (idx.drop keep.length))⟩
+  else none
+
 /-- numpy `any` / `all` as aggregates: truth values, whatever the data. -/
 def aggAny (l : List XR) : XR := boolXR (l.any XR.truthy)
 def aggAll (l : List XR) : XR := boolXR (l.all XR.truthy)
